@@ -41,7 +41,7 @@ func ruleLITTYPE(c *Ctx, r *Report) {
 	}
 	fn := pr.TokToLit
 	r.unit("functions", fnName(fn))
-	paths, complete := c.enumPathsInl(fn, 5000)
+	paths, complete := c.enumPathsOpt(fn, 20000, c.inlBool())
 	if !complete {
 		r.bad(rule, "paths", c.pos(fn.Pos()), "too many paths")
 		return
@@ -178,6 +178,31 @@ func ruleNODESOURCES(c *Ctx, r *Report) {
 			}
 		}
 		allowed[pr.TokToLit] = "token→literal"
+		// closures kept in a package-level table that only the token→literal function (or a helper of it) reads
+		for _, f := range c.Funcs {
+			if fnPkgPath(f) != pkgRoot || f.Parent() == nil {
+				continue
+			}
+			if g := c.tableOfClosure(f); g != nil {
+				okReaders := true
+				nReaders := 0
+				for _, h := range c.Funcs {
+					for _, b := range h.Blocks {
+						for _, in := range b.Instrs {
+							if ld, ok := in.(*ssa.UnOp); ok && ld.X == ssa.Value(g) {
+								nReaders++
+								if _, isAllowed := allowed[h]; !isAllowed {
+									okReaders = false
+								}
+							}
+						}
+					}
+				}
+				if okReaders && nReaders > 0 {
+					allowed[f] = "attempt of the token→literal function's table"
+				}
+			}
+		}
 	}
 	for _, f := range pt.Reducers {
 		allowed[f] = "reducer"
@@ -1322,6 +1347,53 @@ func (c *Ctx) acceptHelpers(pr *ParserRoles) []*ssa.Function {
 	}
 	c.roles["accepthelpers"] = out
 	return out
+}
+
+// tableOfClosure: f is an anonymous function defined in the package initialiser and stored (only) into an
+// element of the literal behind a package-level slice; returns that variable.
+func (c *Ctx) tableOfClosure(f *ssa.Function) *ssa.Global {
+	parent := f.Parent()
+	if parent == nil || parent.Name() != "init" || parent.Pkg == nil {
+		return nil
+	}
+	var arr *ssa.Alloc
+	for _, b := range parent.Blocks {
+		for _, in := range b.Instrs {
+			st, ok := in.(*ssa.Store)
+			if !ok {
+				continue
+			}
+			v := st.Val
+			if mc, ok := v.(*ssa.MakeClosure); ok {
+				v = mc.Fn
+			}
+			if v != ssa.Value(f) {
+				continue
+			}
+			fa, ok := st.Addr.(*ssa.FieldAddr)
+			if !ok {
+				return nil
+			}
+			ia, ok := fa.X.(*ssa.IndexAddr)
+			if !ok {
+				return nil
+			}
+			a, ok := ia.X.(*ssa.Alloc)
+			if !ok || (arr != nil && arr != a) {
+				return nil
+			}
+			arr = a
+		}
+	}
+	if arr == nil {
+		return nil
+	}
+	for _, m := range parent.Pkg.Members {
+		if g, ok := m.(*ssa.Global); ok && c.globalSliceArray(g) == arr {
+			return g
+		}
+	}
+	return nil
 }
 
 // TOK-IMMUTABLE (C09/C16/C06): the parser packages never edit a token they got from the lexer.
